@@ -142,11 +142,22 @@ def OpJ.toOp (o : OpJ) : Op :=
   | "pushDir" => .pushDir o.a
   | "pop" => .pop
   | _ => .popDir
+/-- The observation is taken twice: after each operation, and again from every context value at the
+    end of the history (contexts are immutable values: what one answers must not change by what was
+    derived from it or from its relatives later).  Model and Φ apply to each pass. -/
 def engine : Engine :=
   mkEngine (I := In) (O := List Snap)
-    (fun i => run (mkRoot i.output i.params) (i.ops.map OpJ.toOp))
+    (fun i => let s := run (mkRoot i.output i.params) (i.ops.map OpJ.toOp); s ++ s)
     (fun i => (run (mkRoot i.output i.params) (i.ops.map OpJ.toOp)).length == i.ops.length)   -- never pops the root
-    (fun i o => judge i.output i.params (i.ops.map OpJ.toOp) o)
+    (fun i o =>
+      let n := o.length / 2
+      if o.length % 2 != 0 then some "harness: the two passes differ in length" else
+      match judge i.output i.params (i.ops.map OpJ.toOp) (o.take n) with
+      | some c => some c
+      | none =>
+        match judge i.output i.params (i.ops.map OpJ.toOp) (o.drop n) with
+        | some c => some ("asked again at the end of the history: " ++ c)
+        | none => none)
 end C18
 
 /-! ### C10 / C12 persister -/
